@@ -211,6 +211,9 @@ func (xc *xdsChannel) onResponse(resp response, onDone func()) ([]string, error)
 	// Lookup the resource parser based on the resource type.
 	rType, ok := xc.clientConfig.ResourceTypes[resp.typeURL]
 	if !ok {
+		// Nothing will process this response: release the stream's flow
+		// control, otherwise the next read never happens.
+		onDone()
 		return nil, xdsresource.NewErrorf(xdsresource.ErrorTypeResourceTypeUnsupported, "Resource type URL %q unknown in response from server", resp.typeURL)
 	}
 
